@@ -6,4 +6,4 @@ import (
 	"verif/internal/harness"
 )
 
-func TestProps(t *testing.T) { harness.Main(t, "C03", Entry, SCT) }
+func TestProps(t *testing.T) { harness.Main(t, "C03", Entry, SCT, Huge) }
